@@ -173,6 +173,15 @@ BARE_CASES = [
     ('W/2 of SE', ['W2SE'], ['W2SE']),
     ('NE, NW', [], ['NE', 'NW']),
     ('S/2; NE', ['S2'], ['S2', 'NE']),
+    # after a QUARTER a bare quarter is an aliquot only under clean_qq
+    ('NE/4 NW', ['NE'], ['NENW']),
+    ('NE¼ of the SW', ['NE'], ['NESW']),
+    ('N/2 of NE/4 of SW', ['N2NE'], ['N2NESW']),
+    ('N½ NE¼ NW', ['N2NE'], ['N2NENW']),
+    # a run of bare quarters directly after a half
+    ('N2NENE', ['N2NENE'], ['N2NENE']),
+    ('N/2 NE of NE', ['N2NENE'], ['N2NENE']),
+    ('E2 NE NW SW', ['E2NENWSW'], ['E2NENWSW']),
 ]
 
 
@@ -291,6 +300,12 @@ def run_shard(shard, ctx):
             check_bare(f"{hs}{j}{q}", [f"{h}2{q}"], [f"{h}2{q}"], ctx, rep, pytrs)
             lead = rng.choice(['the ', 'Lot 3, ', 'That part of the ', ''])
             check_bare(f"{lead}{q}", [], [q], ctx, rep, pytrs)
+            q0 = rng.choice(quarters)
+            qs = rng.choice([f"{q0}/4", f"{q0}¼", f"{q0} 1/4"])
+            j2 = rng.choice([' ', ' of ', ' of the '])
+            check_bare(f"{qs}{j2}{q}", [q0], [q0 + q], ctx, rep, pytrs)
+            check_bare(f"{hs}{j}{q}{rng.choice(['', ' ', ' of '])}{q0}",
+                       [f"{h}2{q}{q0}"], [f"{h}2{q}{q0}"], ctx, rep, pytrs)
         return
     for _ in range(shard['n']):
         n = rng.choice([1, 2, 2, 3, 3, 4, 5])
@@ -307,9 +322,16 @@ def run_shard(shard, ctx):
         if rng.random() < 0.35:
             # Directly after a half a bare quarter is an aliquot under every
             # configuration ('E/2NE', 'NW/4E/2NE', 'North Half of the SW').
+            # ... and so is a run of bare quarters that starts directly
+            # after a half ('E½NENW' -> 'E½NE¼NW¼', documented at
+            # half_plus_q_scrubber).
             for i in range(1, n):
-                if chain[i] in B.QUARTERS and chain[i - 1] in B.HALVES \
-                        and spellings[i - 1][1] != 'plain':
+                after_half = (chain[i - 1] in B.HALVES
+                              and spellings[i - 1][1] not in
+                              ('plain', 'plain-after-half'))
+                in_run = spellings[i - 1][1] == 'plain-after-half'
+                if chain[i] in B.QUARTERS and (after_half or
+                                               (in_run and rng.random() < 0.7)):
                     c = chain[i]
                     spellings[i] = (rng.choice([c, c, c.lower(), c.title()]),
                                     'plain-after-half')
